@@ -7,6 +7,7 @@ import (
 	"fmt"
 	"io"
 	"reflect"
+	"sort"
 	"time"
 	"unicode/utf8"
 
@@ -298,8 +299,13 @@ func FromGoType(obj interface{}) Object {
 		return NewList(items)
 	case map[string]interface{}:
 		m := make(map[string]Object, len(obj))
-		for k, v := range obj {
-			valueObj := FromGoType(v)
+		keys := make([]string, 0, len(obj))
+		for k := range obj {
+			keys = append(keys, k)
+		}
+		sort.Strings(keys)
+		for _, k := range keys {
+			valueObj := FromGoType(obj[k])
 			if IsError(valueObj) {
 				return valueObj
 			}
@@ -319,7 +325,15 @@ func FromGoType(obj interface{}) Object {
 // in the map is of a type that can't be converted, an error is returned.
 func AsObjects(m map[string]any) (map[string]Object, error) {
 	result := make(map[string]Object, len(m))
-	for k, v := range m {
+	// Visit the keys in sorted order so that the error reported for a map
+	// with more than one invalid value does not depend on map iteration order
+	keys := make([]string, 0, len(m))
+	for k := range m {
+		keys = append(keys, k)
+	}
+	sort.Strings(keys)
+	for _, k := range keys {
+		v := m[k]
 		switch v := v.(type) {
 		case Object:
 			result[k] = v
@@ -874,8 +888,8 @@ func (c *MapConverter) To(obj Object) (interface{}, error) {
 	keyType := reflect.TypeOf("")
 	mapType := reflect.MapOf(keyType, c.valueType)
 	gMap := reflect.MakeMapWithSize(mapType, tMap.Size())
-	for k, v := range tMap.items {
-		conv, err := c.valueConverter.To(v)
+	for _, k := range tMap.SortedKeys() {
+		conv, err := c.valueConverter.To(tMap.items[k])
 		if err != nil {
 			return nil, err
 		}
@@ -887,7 +901,9 @@ func (c *MapConverter) To(obj Object) (interface{}, error) {
 func (c *MapConverter) From(obj interface{}) (Object, error) {
 	m := reflect.ValueOf(obj)
 	o := make(map[string]Object, m.Len())
-	for _, key := range m.MapKeys() {
+	keys := m.MapKeys()
+	sort.Slice(keys, func(i, j int) bool { return keys[i].String() < keys[j].String() })
+	for _, key := range keys {
 		v := m.MapIndex(key)
 		conv, err := c.valueConverter.From(v.Interface())
 		if err != nil {
@@ -930,7 +946,8 @@ func (c *StructConverter) To(obj Object) (interface{}, error) {
 		value := c.goType.New()
 		// Get the underlying struct so that we can set its fields.
 		structValue := value.Elem()
-		for k, value := range obj.items {
+		for _, k := range obj.SortedKeys() {
+			value := obj.items[k]
 			// If the struct has a field with the same name as a key, set it.
 			if f := structValue.FieldByName(k); f.CanSet() {
 				if attr, ok := c.goType.GetAttribute(k); ok {
